@@ -569,6 +569,23 @@ class Ctx:
         return 0
 
 
+def generic_replay(ctx, path):
+    """Re-run a recorded failing input: prints the record and, when it carries documents, what the
+    implementation does with them now."""
+    r = json.load(open(path))
+    print(json.dumps({k: v for k, v in r.items() if k != 'replay'}, indent=1))
+    rep = r.get('replay', {})
+    print(json.dumps(rep, indent=1, default=str)[:4000])
+    docs = [(k, v) for k, v in rep.items() if isinstance(v, str) and v.lstrip().startswith('<') and 'svg' in v[:400]]
+    if docs:
+        binp, _ = ctx.harness('release')
+        if binp:
+            outs = ctx.rvh_batch(binp, 'dump', ["%s\t%s" % (rep.get('opts', '-'), d.replace('\n', ' ')) for _, d in docs])
+            for (k, _), o in zip(docs, outs):
+                print("---- %s -> %s" % (k, (o or '')[:600]))
+    return 0
+
+
 def load_known(pid):
     out = []
     p = os.path.join(VERIF, 'known_findings.txt')
